@@ -17,6 +17,7 @@ import (
 	"os"
 	"os/exec"
 	"path/filepath"
+	"regexp"
 	"sort"
 	"strconv"
 	"strings"
@@ -161,7 +162,7 @@ type rw struct {
 	skip   map[ast.Node]bool // comm statements / their recv exprs handled by select rewrite
 	recv2  map[ast.Node]bool // recv exprs in 2-value assignment context
 	usedVS bool
-	lib    bool // a package of the library under test (not the harness)
+	lib    bool                    // a package of the library under test (not the harness)
 	gen    map[*ast.BlockStmt]bool // blocks generated for select / range-over-map (last statement carries a label)
 	stats  map[string]int
 }
@@ -190,9 +191,9 @@ func rewritePkg(fset *token.FileSet, imp types.Importer, dir, importPath, outDir
 		names = append(names, n)
 	}
 	info := &types.Info{
-		Types: map[ast.Expr]types.TypeAndValue{},
-		Uses:  map[*ast.Ident]types.Object{},
-		Defs:  map[*ast.Ident]types.Object{},
+		Types:      map[ast.Expr]types.TypeAndValue{},
+		Uses:       map[*ast.Ident]types.Object{},
+		Defs:       map[*ast.Ident]types.Object{},
 		Selections: map[*ast.SelectorExpr]*types.Selection{},
 	}
 	conf := types.Config{Importer: imp}
@@ -227,7 +228,8 @@ func rewritePkg(fset *token.FileSet, imp types.Importer, dir, importPath, outDir
 		}
 		dst := filepath.Join(outDir, names[i])
 		os.MkdirAll(filepath.Dir(dst), 0o755)
-		if err := os.WriteFile(dst, buf.Bytes(), 0o644); err != nil {
+		out := resetFuncRe.ReplaceAll(buf.Bytes(), []byte("//go:norace\nfunc $1()"))
+		if err := os.WriteFile(dst, out, 0o644); err != nil {
 			fatalf("%v", err)
 		}
 		overlay[filepath.Join(dir, names[i])] = dst
@@ -245,6 +247,8 @@ func rewritePkg(fset *token.FileSet, imp types.Importer, dir, importPath, outDir
 		fmt.Printf("%-12s files=%d%s\n", rel, len(files), sb.String())
 	}
 }
+
+var resetFuncRe = regexp.MustCompile(`(?m)^func (_vr\d+resetPkgVars)\(\)`)
 
 func stripDocs(f *ast.File) {
 	ast.Inspect(f, func(n ast.Node) bool {
@@ -471,10 +475,18 @@ func (r *rw) resetPackageVars(f *ast.File) {
 	if len(stmts) == 0 {
 		return
 	}
-	lit := &ast.FuncLit{Type: &ast.FuncType{Params: &ast.FieldList{}}, Body: &ast.BlockStmt{List: stmts}}
+	// the reset runs between two executions on the orchestrator, which the race detector cannot order with
+	// the managed threads (hand-offs are invisible to it by design): it is a //go:norace function
+	r.n++
+	name := r.tmp("resetPkgVars")
+	f.Decls = append(f.Decls, &ast.FuncDecl{
+		Doc:  &ast.CommentGroup{List: []*ast.Comment{{Text: "//go:norace"}}},
+		Name: id(name), Type: &ast.FuncType{Params: &ast.FieldList{}},
+		Body: &ast.BlockStmt{List: stmts},
+	})
 	f.Decls = append(f.Decls, &ast.FuncDecl{
 		Name: id("init"), Type: &ast.FuncType{Params: &ast.FieldList{}},
-		Body: &ast.BlockStmt{List: []ast.Stmt{&ast.ExprStmt{X: r.vs("RegisterReset", lit)}}},
+		Body: &ast.BlockStmt{List: []ast.Stmt{&ast.ExprStmt{X: r.vs("RegisterReset", id(name))}}},
 	})
 }
 
